@@ -23,7 +23,7 @@ INDICES = ["0", "1", "2", "10", "11"]
 def build(tree):
     """tree = ("dot"|"cart", [children]) with children port names or trees"""
     kind, children = tree
-    c = DotProductCombinator(name_of(tree), None) if kind == "dot" else CartesianProductCombinator(name_of(tree), None, depth=1)
+    c = DotProductCombinator(name_of(tree), None) if kind == "dot" else CartesianProductCombinator(name_of(tree), None, depth=2 if kind == "cart2" else 1)
     for ch in children:
         if isinstance(ch, str):
             c.add_item(ch)
@@ -88,6 +88,22 @@ def gen_cart():
     return ("cart", ports), arrivals, expected
 
 
+def gen_cart_depth2():
+    """cartesian product with depth 2 (a cross product inside a nested scatter): the last TWO components of the tags are the scatter
+    indices, the common prefix is kept; tokens of one port may share their last index and differ in the middle one"""
+    def tags(k):
+        out = set()
+        while len(out) < k:
+            out.add("0." + rng.choice(["0", "1"]) + "." + rng.choice(["0", "1", "10"]))
+        return sorted(out)
+
+    ta, tb = tags(rng.randint(1, 3)), tags(rng.randint(1, 2))
+    arrivals = [("a", t) for t in ta] + [("b", t) for t in tb]
+    # the full cross product: every pair of an `a` token and a `b` token exactly once (the composite tags are checked only for
+    # arrival-order invariance: the statement does not spell out the tag rule for depth 2)
+    return ("cart2", ["a", "b"]), arrivals, ("pairs", Counter((f"a@{x}", f"b@{y}") for x in ta for y in tb))
+
+
 def gen_dot_over_cart():
     """dot(a, cart(b, c)): b and c are scattered independently below 0 (tags 0.i, 0.j); a carries the tag 0 (broadcast to every
     combination).  Expected: one combination per (i, j) with the tag 0.i.j"""
@@ -118,7 +134,7 @@ def orders(arrivals):
 
 def case(gen):
     tree, arrivals, expected = gen()
-    if tree[0] == "cart" and any(not isinstance(ch, str) for ch in tree[1]):
+    if tree[0].startswith("cart") and any(not isinstance(ch, str) for ch in tree[1]):
         # recorded finding: a cartesian product over an inner combinator fails for every input
         try:
             asyncio.run(run(tree, arrivals))
@@ -136,13 +152,18 @@ def case(gen):
         if got != first[1]:
             return {"failure": "the emitted combinations depend on the arrival order", "combinator": name_of(tree), "order_1": " ".join(f"{p}:{t}" for p, t in first[0]),
                     "order_2": " ".join(f"{p}:{t}" for p, t in order), "only_in_1": sorted((first[1] - got).elements())[:4], "only_in_2": sorted((got - first[1]).elements())[:4]}
-        if expected is not None and got != expected:
+        if isinstance(expected, tuple) and expected[0] == "pairs":
+            pairs = Counter(tuple(sorted(v for (_, _, v) in combo)) for combo in got.elements())
+            if pairs != expected[1]:
+                return {"failure": "the cartesian product is not the full cross product", "combinator": name_of(tree), "order": " ".join(f"{p}:{t}" for p, t in order),
+                        "missing": sorted((expected[1] - pairs).elements())[:4], "unexpected": sorted((pairs - expected[1]).elements())[:4]}
+        elif expected is not None and got != expected:
             return {"failure": "the emitted combinations are not the ones the statement prescribes", "combinator": name_of(tree), "order": " ".join(f"{p}:{t}" for p, t in order),
                     "missing": sorted((expected - got).elements())[:4], "unexpected": sorted((got - expected).elements())[:4]}
     return None
 
 
-GENS = [gen_dot, gen_dot_three_depths, gen_cart, gen_dot_over_cart, gen_cart_over_dot]
+GENS = [gen_dot, gen_dot_three_depths, gen_cart, gen_dot_over_cart, gen_cart_over_dot, gen_cart_depth2]
 
 
 def search(n):
